@@ -14,7 +14,7 @@ MANIFEST = dict(
     note="Trusted: z3's regex theory; the re->z3 translation (validated against CPython's re at selftest); the reference glob matcher in this file. A KNOWN FINDING (unanchored non-last alternatives; pinned by test_multi_literal/test_multi_wildcard) is reported as KNOWN-FINDING and its class is excluded from the violation queries by an explicit language constraint.",
 )
 
-FUNCTIONS = ["debian.copyright.globs_to_re", "debian.copyright.FilesParagraph.files_pattern",
+FUNCTIONS = ["debian.copyright.globs_to_re", "debian.copyright.FilesParagraph.files_pattern", "debian.copyright.FilesParagraph.__init__",
              "debian.copyright.FilesParagraph.matches", "debian.copyright.Copyright.find_files_paragraph"]
 STUBS = []
 ASSUMPTIONS = ["globs are non-empty and contain no whitespace (they come from a whitespace-separated field)",
@@ -138,6 +138,34 @@ def h_name(params, name: str):
     require(got2 == want2, "stale pattern cache after changing Files", globs=globs2, name=name, got=got2, want=want2)
     p.files = list(globs)
     require(p.matches(name) == got, "answer changed after restoring Files", globs=globs, name=name)
+
+
+ILLEGAL = [["src\\main.c"], ["a", "b\\"], ["\\x*"], ["ok", "\\."]]
+
+
+def h_illegal(params, name: str):
+    """An illegal escape is reported on *every* query (no stale pattern after the first error), and
+    the paragraph answers correctly again once Files is legal."""
+    globs = ILLEGAL[params["case"]]
+    assume(len(name) == params["len"])
+    p = _paragraph(["*"])
+    prior = params.get("prior", False)
+    if prior:
+        require(p.matches(name) is True, "'*' must match everything", name=name)
+    p.files = list(globs)
+    for attempt in (1, 2, 3):
+        try:
+            r = p.matches(name)
+        except MachineReadableFormatError:
+            continue
+        require(False, "illegal escape not reported on query %d (answer %r from a stale pattern)" % (attempt, r), globs=globs, name=name)
+    legal = CATALOGUE[params["case"] % len(CATALOGUE)]
+    p.files = list(legal)
+    got = p.matches(name)
+    want = ref_matches(legal, name)
+    if got != want and KNOWN_CLASS in params.get("known", []) and got and in_known_class(legal, name):
+        raise Skip("known finding class")
+    require(got == want, "wrong answer after replacing an illegal Files value", globs=legal, name=name, got=got, want=want)
 
 
 DOCS = [
@@ -314,6 +342,12 @@ def partitions(tier, seed):
         for ln in ((0, 1, 2) if q else (0, 1, 2, 3, 4)):
             P.append(dict(name="name/case%d/len%d" % (case, ln), harness="h_name", params=dict(case=case, len=ln),
                           budget=60 if q else 900, bounds="globs %r (then %r): all file names of length %d" % (CATALOGUE[case], CATALOGUE[(case + 3) % len(CATALOGUE)], ln)))
+    for case in range(len(ILLEGAL)):
+        for prior in (False, True):
+            for ln in ((1,) if q else (0, 1, 2, 3)):
+                P.append(dict(name="illegal/case%d/%s/len%d" % (case, "prior" if prior else "fresh", ln), harness="h_illegal",
+                              params=dict(case=case, prior=prior, len=ln), budget=60 if q else 600, reach=[],
+                              bounds="Files %r queried three times with all names of length %d" % (ILLEGAL[case], ln)))
     for d in range(len(DOCS)):
         for ln in ((1, 2) if q else (0, 1, 2, 3, 4, 5)):
             P.append(dict(name="find/doc%d/len%d" % (d, ln), harness="h_find", params=dict(doc=d, len=ln),
